@@ -724,6 +724,11 @@ def judge_blind(J, out, rec, sf, opts, label, truth=None):
                 if int(isl.flags) >= 128:
                     J.fail('spec', f"{label}: island row {isl.island} flags {isl.flags}", dict(site='island-row', clause='flags'))
             J.ask(f"isl {ncomp_rows} {x0} {x1} {y0} {y1} {trip}", hs)
+            def hrd(o, isl=isl):
+                if o != 'ok':
+                    J.fail('spec', f"{label}: island row {isl.island} has ra={isl.ra!r} dec={isl.dec!r}: {o} out of range "
+                           "(0 <= ra < 360, |dec| <= 90)", dict(site='island-row', clause=o), dict(island=int(isl.island)))
+            J.ask(f"radec {F(isl.ra)} {F(isl.dec)}", hrd)
             # strings of island rows
             for sname, vname, scale in (('ra_str', 'ra', 15.0), ('dec_str', 'dec', 1.0)):
                 def hstr(o, isl=isl, sname=sname, vname=vname):
